@@ -222,6 +222,12 @@ def generators(ctx):
     cls = repo.cls('xtuml.tools:IdGenerator')
     ms = repo.methods(cls)
     Q = 'xtuml.tools:IdGenerator'
+    alias = repo.assigns_in_class(cls).get('__next__')
+    if alias is not None and '__next__' not in ms:
+        r.violation('IdGenerator.__next__ is bound as `__next__ = %s`: the alias is fixed to the base-class function, so the builtin next(generator) '
+                    'bypasses a subclass that overrides next() and ids no longer come from the user\'s generator' % src(alias), alias,
+                    construct=Q + '.__next__', key='next-alias')
+        return
     for need in ('__init__', 'peek', 'next', '__next__', '__iter__'):
         if need not in ms:
             raise AnalysisError('%s: IdGenerator.%s is missing' % (loc(cls), need))
